@@ -190,9 +190,29 @@ class St:
 
     def forget(self, pred):
         f = {k: v for k, v in self.facts.items() if not T.mentions(k, pred)}
-        if len(f) == len(self.facts):
+        # the conditions under which an element was put in a local collection (`when` items) are facts of that
+        # moment: what is forgotten as a fact is forgotten there too
+        v = None
+        for k, t in self.vars.items():
+            if t[0] != 'union':
+                continue
+            items = None
+            for it in t[1]:
+                if it[0] == 'when' and it[1] and it[3][0] == 'single':
+                    keep = frozenset((c, val) for c, val in it[1]
+                                     if not (T.mentions(c, pred) and not T.mentions(it[3], pred)))
+                    if len(keep) != len(it[1]):
+                        if items is None:
+                            items = set(t[1])
+                        items.discard(it)
+                        items.add(T.mk(('when', keep, it[2], it[3])))
+            if items is not None:
+                if v is None:
+                    v = dict(self.vars)
+                v[k] = T.mk(('union', frozenset(items)))
+        if len(f) == len(self.facts) and v is None:
             return self
-        return self._new(facts=f)
+        return self._new(facts=f, vars=v) if v is not None else self._new(facts=f)
 
     def note(self, line, msg):
         tr = self.trace
@@ -282,8 +302,11 @@ def _len_test(term):
         return None
     op, l, r = term[1], term[2], term[3]
     flip = {'<': '>', '>': '<', '<=': '>=', '>=': '<=', '==': '==', '!=': '!='}
-    if l[0] == 'const' and r[0] == 'call':
+    if l[0] == 'const' and r[0] in ('call', 'acc'):
         l, r, op = r, l, flip.get(op)
+    if l[0] == 'acc' and l[1] == ('const', 0) and len(l[2]) == 1:
+        # n = 0; for x in S: if c(x): n += 1  -- n is len([x for x in S if c(x)])
+        l = tuple(l[2])[0]
     if not (l[0] == 'call' and l[1] == 'len' and len(l[2]) == 1 and r[0] == 'const'
             and isinstance(r[1], int) and not isinstance(r[1], bool)):
         return None
@@ -295,7 +318,7 @@ def _len_test(term):
     return None
 
 
-NOT_NONE_KINDS = {'exc', 'new', 'coro', 'closure', 'func', 'class', 'mod', 'pos', 'tuple',
+NOT_NONE_KINDS = {'exc', 'exctype', 'new', 'coro', 'closure', 'func', 'class', 'mod', 'pos', 'tuple',
                   'list', 'set', 'comp', 'union', 'fmt', 'task', 'builtin'}
 
 
@@ -375,6 +398,8 @@ class Analysis:
     Every hook may return None for the default behaviour."""
 
     drop_callee_facts = False # forget what was learned inside an inlined helper when it returns
+    lambda_values = True      # a lambda is a value that can be called later (else: unknown)
+    loop_fission = True       # read a loop of independent statements as one loop per statement
     gen_cancel = False        # fork a Cancelled outcome at may-suspend awaits
     gen_bodyexc = False       # fork a BodyExc outcome at awaits of user code
     max_inline = 4
@@ -383,6 +408,9 @@ class Analysis:
         n = func.name
         if func.parent is not None:
             return True
+        if func.cls is not None and func.cls.name.startswith('_') and not func.is_async \
+                and not (n.startswith('__') and n.endswith('__')):
+            return True         # methods of a small helper class private to the package
         return n.startswith('_') and not (n.startswith('__') and n.endswith('__'))
 
     def on_call(self, ip, node, fterm, args, kwargs, st, fr):
@@ -1018,13 +1046,26 @@ class Interp:
     def x_While(self, s, st, fr):
         o = Out()
         seen = set()
-        work = [st]
+        work = [(st, None)]
         key = ('while', s.lineno, s.col_offset, fr.fid)
         ctx = LoopCtx('while', s, None, None, key)
         n = 0
+        # `while flag:` / `while a < b:` -- what the body learnt about the test is used at the back edge, before the
+        # facts of the iteration are dropped
+        pure_test = not _has_effects(s.test)
+
+        def leave(y):
+            y = self.an.on_loop_exit(self, ctx, y, fr)
+            if y is not None:
+                y = self.drop_loop_locals(s, y, fr)
+                if s.orelse:
+                    r = self.exec_block(s.orelse, [y], fr)
+                    o.absorb(r, nxt=True)
+                else:
+                    o.nxt.append(y)
         while work:
-            cur = work.pop()
-            k = cur.key()
+            cur, known = work.pop()
+            k = (cur.key(), known)
             if k in seen:
                 continue
             seen.add(k)
@@ -1033,16 +1074,10 @@ class Interp:
                 raise AnalysisError("state explosion in loop at %s" % self.where(s, fr))
             cur = self.an.on_while_head(self, ctx, cur, fr)
             for x, t in self.eval(s.test, cur, fr, o):
-                y = self.branch(s.test, t, False, x, fr)
-                if y is not None:
-                    y = self.an.on_loop_exit(self, ctx, y, fr)
-                if y is not None:
-                    y = self.drop_loop_locals(s, y, fr)
-                    if s.orelse:
-                        r = self.exec_block(s.orelse, [y], fr)
-                        o.absorb(r, nxt=True)
-                    else:
-                        o.nxt.append(y)
+                if known is not True:
+                    y = self.branch(s.test, t, False, x, fr)
+                    if y is not None:
+                        leave(y)
                 y = self.branch(s.test, t, True, x, fr)
                 if y is None:
                     continue
@@ -1062,7 +1097,25 @@ class Interp:
                         o.nxt.append(self.drop_loop_locals(s, y, fr))
                 self.loopctx.append(ctx)
                 try:
-                    work += [self.an.on_back_edge(self, self.back_edge(st, cur, y)) or y for y in r.nxt + r.cont]
+                    for y in r.nxt + r.cont:
+                        tv = None
+                        if pure_test:
+                            scratch = Out()
+                            vals = self.eval(s.test, y, fr, scratch)
+                            if len(vals) == 1 and not scratch.exc:
+                                tv = truth(vals[0][1], vals[0][0])
+                        if tv is False:
+                            # the test is known to fail: this path leaves the loop
+                            self.loopctx.pop()
+                            try:
+                                z = self.branch(s.test, vals[0][1], False, vals[0][0], fr)
+                                if z is not None:
+                                    leave(z)
+                            finally:
+                                self.loopctx.append(ctx)
+                            continue
+                        work.append((self.an.on_back_edge(self, self.back_edge(st, cur, y)) or y,
+                                     True if tv is True else None))
                 finally:
                     self.loopctx.pop()
         o.nxt = dedup(o.nxt)
@@ -1075,7 +1128,13 @@ class Interp:
         v = None
         tnames = {n.id for n in ast.walk(s.target) if isinstance(n, ast.Name)}
         for k, t in st.vars.items():
-            if k[0] != fr.fid or k[1] in tnames or t[0] in ('union', 'acc', 'strcat', 'unk', 'elem', 'last'):
+            if k[0] == fr.fid and k[1] not in tnames and t == elem:
+                # `previous = x` at the end of the body: at the next iteration it is the element before this one
+                if v is None:
+                    v = dict(st.vars)
+                v[k] = T.mk(('prev', elem))
+                continue
+            if k[0] != fr.fid or k[1] in tnames or t[0] in ('union', 'acc', 'strcat', 'unk', 'elem', 'last', 'prev'):
                 continue
             if T.contains(t, elem):
                 if v is None:
@@ -1129,8 +1188,8 @@ class Interp:
                             for t in ast.walk(t))]
             if len(defs) == 1 and isinstance(defs[0], ast.Assign) and len(defs[0].targets) == 1 \
                     and isinstance(defs[0].value, (ast.GeneratorExp, ast.ListComp)) \
-                    and len(defs[0].value.generators) >= (1 if getattr(self.an, 'desugar_all_any', False)
-                                                          and isinstance(defs[0].value, ast.GeneratorExp) else 2) \
+                    and len(defs[0].value.generators) >= (1 if isinstance(defs[0].value, ast.GeneratorExp) and (
+                        getattr(self.an, 'desugar_all_any', False) or defs[0].value.generators[0].ifs) else 2) \
                     and defs[0].lineno < s.lineno \
                     and s.iter.id not in fr.func.params:
                 v = defs[0].value
@@ -1157,10 +1216,118 @@ class Interp:
         cache[id(s)] = synth
         return synth
 
+    def _for_else_flag(self, s):
+        """`for x in S: if c(x): break` + `else: E` is the flag loop `b = False; for x in S: if c(x): b = True` followed
+        by `if not b: E` (c is evaluated for the elements after the first hit too: it must have no effect, which
+        holds for the tests the fold summaries accept); built once per loop"""
+        cache = self.__dict__.setdefault('_fe_cache', {})
+        if id(s) in cache:
+            return cache[id(s)]
+        synth = None
+        body = [b for b in s.body if not (isinstance(b, ast.Expr) and isinstance(b.value, ast.Constant))
+                and not isinstance(b, ast.Pass)]
+        if s.orelse and isinstance(s, ast.For) and len(body) == 1 and isinstance(body[0], ast.If) and not body[0].orelse:
+            inner = [b for b in body[0].body if not (isinstance(b, ast.Expr) and isinstance(b.value, ast.Constant))
+                     and not isinstance(b, ast.Pass)]
+            if len(inner) == 1 and isinstance(inner[0], ast.Break) and not _has_effects(body[0].test, allow_calls=True):
+                flag = '_broke_%d_%d' % (s.lineno, s.col_offset)
+                init = ast.Assign(targets=[ast.Name(id=flag, ctx=ast.Store())], value=ast.Constant(value=False))
+                hit = ast.Assign(targets=[ast.Name(id=flag, ctx=ast.Store())], value=ast.Constant(value=True))
+                loop = ast.For(target=s.target, iter=s.iter, orelse=[],
+                               body=[ast.If(test=body[0].test, body=[hit], orelse=[])])
+                after = ast.If(test=ast.UnaryOp(op=ast.Not(), operand=ast.Name(id=flag, ctx=ast.Load())),
+                               body=list(s.orelse), orelse=[])
+                synth = [init, loop, after]
+                for top in synth:
+                    for n in ast.walk(top):
+                        if not hasattr(n, 'lineno'):
+                            ast.copy_location(n, s)
+                    for n in ast.walk(top):
+                        for c in ast.iter_child_nodes(n):
+                            if isinstance(c, (ast.For, ast.If, ast.Assign, ast.UnaryOp)) and not hasattr(c, '_parent'):
+                                c._parent = n
+                    top._parent = getattr(s, '_parent', None)
+                    ast.fix_missing_locations(top)
+                for b in s.orelse:
+                    b._parent = after
+        cache[id(s)] = synth
+        return synth
+
+    def _fission(self, s):
+        """`for x in S: A; B; C` with A, B, C pairwise independent (none writes what another reads or writes, none
+        leaves the loop) is `for x in S: A` then `for x in S: B` then `for x in S: C`: each of them is then a loop the
+        fold summaries know (a reset of every element, a count, a filtered list); built once per loop"""
+        cache = self.__dict__.setdefault('_fi_cache', {})
+        if id(s) in cache:
+            return cache[id(s)]
+        synth = None
+        body = [b for b in s.body if not (isinstance(b, ast.Expr) and isinstance(b.value, ast.Constant))
+                and not isinstance(b, ast.Pass)]
+        if isinstance(s, ast.For) and not s.orelse and len(body) >= 2 and isinstance(s.target, ast.Name) \
+                and isinstance(s.iter, (ast.Name, ast.Attribute)) \
+                and not any(isinstance(n, (ast.Break, ast.Continue, ast.Return, ast.Yield, ast.YieldFrom, ast.Await,
+                                           ast.Raise, ast.Try, ast.With, ast.For, ast.While, ast.NamedExpr))
+                            for b in body for n in ast.walk(b)):
+            tgt = s.target.id
+
+            def rw(b):
+                R, W, opaque = set(), set(), False
+                for n in ast.walk(b):
+                    if isinstance(n, ast.Name):
+                        if n.id == tgt:
+                            continue
+                        (W if isinstance(n.ctx, (ast.Store, ast.Del)) else R).add(n.id)
+                    elif isinstance(n, ast.Attribute):
+                        (W if isinstance(n.ctx, (ast.Store, ast.Del)) else R).add('.' + n.attr)
+                    elif isinstance(n, ast.AugAssign) and isinstance(n.target, ast.Name):
+                        R.add(n.target.id)
+                    if isinstance(n, ast.Call):
+                        f = n.func
+                        if isinstance(f, ast.Attribute) and f.attr in ADDERS and isinstance(f.value, ast.Name) \
+                                and f.value.id != tgt:
+                            W.add(f.value.id)
+                        elif isinstance(f, ast.Name) and f.id in ('len', 'isinstance', 'bool', 'int', 'str'):
+                            pass
+                        else:
+                            opaque = True
+                return R, W, opaque
+            infos = [rw(b) for b in body]
+            ok = not any(o for _r, _w, o in infos) and any(w for _r, w, _o in infos)
+            iter_names = {n.id for n in ast.walk(s.iter) if isinstance(n, ast.Name)} | \
+                {'.' + n.attr for n in ast.walk(s.iter) if isinstance(n, ast.Attribute)}
+            for i, (r1, w1, _o) in enumerate(infos):
+                if w1 & iter_names:
+                    ok = False
+                for j, (r2, w2, _o2) in enumerate(infos):
+                    if i != j and (w1 & (r2 | w2)):
+                        ok = False
+            if ok:
+                synth = []
+                for b in body:
+                    lp = ast.For(target=ast.Name(id=tgt, ctx=ast.Store()), iter=s.iter, body=[b], orelse=[])
+                    ast.copy_location(lp, b)
+                    ast.copy_location(lp.target, b)
+                    lp._parent = getattr(s, '_parent', None)
+                    lp._fissioned = s
+                    synth.append(lp)
+        cache[id(s)] = synth
+        return synth
+
     def x_For(self, s, st, fr):
         synth = self._comp_loop(s, fr)
         if synth is not None:
             return self.x_For(synth, st, fr)
+        synth = self._fission(s) if self.an.loop_fission else None
+        if synth is not None:
+            saved = [(b, getattr(b, '_parent', None)) for lp in synth for b in lp.body]
+            for lp in synth:
+                for b in lp.body:
+                    b._parent = lp
+            try:
+                return self.exec_block(synth, [st], fr)
+            finally:
+                for b, par in saved:
+                    b._parent = par
         o = Out()
         for x, it in self.eval(s.iter, st, fr, o):
             if it[0] in ('tuple', 'list') and isinstance(s.iter, (ast.Tuple, ast.List)) and 1 <= len(it[1]) <= 4 \
@@ -1307,12 +1474,27 @@ class Interp:
             b = cur.forget(lambda t: t == elem)
             if sized:
                 b = b.assume(it, True)
-            bs = self.assign(s.target, elem, b, fr, o, s)
-            for b in bs:
-                b = self.an.on_iter(self, ctx, b, fr)
+            replay = _replay_items(it)
+            if replay is None:
+                bs = [(x, ctx) for x in self.assign(s.target, elem, b, fr, o, s)]
+            else:
+                # a list filled by an earlier loop, one element at a time under conditions on that element
+                # (`picked = []; for x in S: if c(x): picked.append(x)`), is iterated: each element of the list is
+                # an element x of S for which the conditions held when it was put there
+                bs = []
+                for x, conds in replay:
+                    cx = LoopCtx('for', s, it, x, key, s.target)
+                    for y in self.assign(s.target, x, b.forget(lambda t, x=x: t == x), fr, o, s):
+                        for c, val in conds:
+                            y = y.assume(c, val) if y is not None else None
+                        if y is not None:
+                            bs.append((y.note(self.where(s, fr), "element put in the list by an earlier loop, under %d "
+                                                                 "condition(s)" % len(conds)), cx))
+            for b, bctx in bs:
+                b = self.an.on_iter(self, bctx, b, fr)
                 if b is None:
                     continue
-                self.loopctx.append(ctx)
+                self.loopctx.append(bctx)
                 try:
                     r = self.exec_block(s.body, [b], fr)
                 finally:
@@ -1535,15 +1717,15 @@ class Interp:
     def try_fold_return(self, s, it, st, fr):
         """search loops: `for x in S: if p(x): return c` -- summarised as
         (return c, exists x: p) | (fall through, forall x: not p)"""
-        if s.orelse:
-            return None
         has_ret = False
         for n in _walk_stmts(s.body):
             if isinstance(n, (ast.Yield, ast.YieldFrom, ast.Raise, ast.Try, ast.With, ast.AsyncWith,
-                              ast.While, ast.For, ast.AsyncFor, ast.Break, ast.Assign, ast.AugAssign,
+                              ast.While, ast.For, ast.AsyncFor, ast.Assign, ast.AugAssign,
                               ast.AnnAssign, ast.Await)):
                 return None
-            if isinstance(n, ast.Return):
+            if isinstance(n, (ast.Return, ast.Break)):
+                # (`for x in S: if p(x): break` + `else: E` -- the same search, leaving by break: E runs when
+                # nothing was found)
                 has_ret = True
         if not has_ret:
             return None
@@ -1553,7 +1735,7 @@ class Interp:
         b = st.forget(lambda t: t == elem)
         scratch = Out()
         bs = self.assign(s.target, elem, b, fr, scratch, s)
-        stay, rets = [], []
+        stay, rets, brks = [], [], []
         for b in bs:
             b = self.an.on_iter(self, ctx, b, fr)
             if b is None:
@@ -1565,12 +1747,16 @@ class Interp:
             finally:
                 self.in_summary -= 1
                 self.loopctx.pop()
-            if r.exc or r.brk or scratch.exc:
+            if r.exc or scratch.exc:
                 return None
             for x in r.nxt + r.cont:
                 if x.auto != b.auto:
                     return None
                 stay.append(frozenset((k, v) for k, v in x.facts.items() if st.facts.get(k) != v))
+            for x in r.brk:
+                if x.auto != b.auto:
+                    return None
+                brks.append(frozenset((k, v) for k, v in x.facts.items() if st.facts.get(k) != v))
             for (x, t, node) in r.ret:
                 if x.auto != b.auto or T.contains(t, elem):
                     return None
@@ -1580,9 +1766,17 @@ class Interp:
         where = self.where(s, fr)
         a = base.assume(T.mk(('forall', it, key, frozenset(stay))), True)
         if a is not None and stay:
-            out.nxt.append(a.note(where, "fold: the search loop finds nothing"))
+            a = a.note(where, "fold: the search loop finds nothing")
+            if s.orelse:
+                out.absorb(self.exec_block(s.orelse, [a], fr), nxt=True)
+            else:
+                out.nxt.append(a)
         elif not stay:
             pass
+        if brks:
+            y = base.assume(T.mk(('exists', it, key, frozenset(brks))), True)
+            if y is not None:
+                out.nxt.append(y.note(where, "fold: the search loop is left by `break` for some element"))
         byval = {}
         for t, node, facts in rets:
             byval.setdefault((t, id(node)), (t, node, set()))[2].add(facts)
@@ -1720,6 +1914,64 @@ class Interp:
                 return f
         return None
 
+    def _cm_class(self, t, s, fr):
+        """the package class of a context-manager object built in place (`with _Slot(q, job):`)"""
+        if t[0] == 'new' and isinstance(t[1], str) and t[1] in self.prog.classes and fr.depth < self.an.max_inline:
+            cls = self.prog.classes[t[1]]
+            names = ('__aenter__', '__aexit__') if isinstance(s, ast.AsyncWith) else ('__enter__', '__exit__')
+            if all(self.prog.supplier(cls, n) is not None for n in names):
+                return cls
+        return None
+
+    def _with_object(self, s, items, item, obj, st, fr):
+        """`async with M(...) [as v]: rest` for a class M of the package:
+        v = await m.__aenter__(); rest; await m.__aexit__(None, None, None) on every way out of rest but an exception,
+        and for an exception e: it is swallowed iff `await m.__aexit__(type(e), e, tb)` is true"""
+        o = Out()
+        is_async = isinstance(s, ast.AsyncWith)
+        tmp = '_cm_%d_%d' % (item.context_expr.lineno, item.context_expr.col_offset)
+
+        def call(name, args, x, out):
+            c = ast.Call(func=ast.Attribute(value=ast.Name(id=tmp, ctx=ast.Load()), attr=name, ctx=ast.Load()),
+                         args=args, keywords=[])
+            e = ast.Await(value=c) if is_async else c
+            ast.copy_location(e, item.context_expr)
+            for n in ast.walk(e):
+                ast.copy_location(n, item.context_expr)
+            e._parent = s
+            return self.eval(e, x, fr, out)
+        none3 = [ast.Constant(value=None), ast.Constant(value=None), ast.Constant(value=None)]
+        st = st.with_var(fr.fid, tmp, obj)
+        for y, v in call('__aenter__' if is_async else '__enter__', [], st, o):
+            sts = self.assign(item.optional_vars, v, y, fr, o, s) if item.optional_vars is not None else [y]
+            for b in sts:
+                r = self._with_items(s, items[1:], b, fr)
+                ex = '__aexit__' if is_async else '__exit__'
+                for z in r.nxt:
+                    o.nxt += [w for w, _v in call(ex, none3, z, o)]
+                for z in r.brk:
+                    o.brk += [w for w, _v in call(ex, none3, z, o)]
+                for z in r.cont:
+                    o.cont += [w for w, _v in call(ex, none3, z, o)]
+                for (z, val, node) in r.ret:
+                    o.ret += [(w, val, node) for w, _v in call(ex, none3, z, o)]
+                for (z, kind, node) in r.exc:
+                    etmp = tmp + '_exc'
+                    z = z.with_var(fr.fid, etmp, ('exc', kind))
+                    args = [ast.Call(func=ast.Name(id='type', ctx=ast.Load()), args=[ast.Name(id=etmp, ctx=ast.Load())],
+                                     keywords=[]), ast.Name(id=etmp, ctx=ast.Load()), ast.Constant(value=None)]
+                    self.handling.append(kind)
+                    try:
+                        for w, res in call(ex, args, z, o):
+                            tv = truth(res, w)
+                            if tv is not True:
+                                o.exc.append((w, kind, node))
+                            if tv is not False:
+                                o.nxt.append(w.note(self.where(s, fr), "%s swallows the exception" % ex))
+                    finally:
+                        self.handling.pop()
+        return o
+
     def _with_items(self, s, items, st, fr):
         """`with a, b: body` is `with a: with b: body`; a context manager written as a decorated generator of the
         package is walked in a callee frame: the rest of the statement runs (in this frame) at its `yield`, what the
@@ -1731,6 +1983,9 @@ class Interp:
         item = items[0]
         for y, t in self.eval(item.context_expr, st, fr, o):
             f = self._cm_function(t, fr)
+            if f is None and self._cm_class(t, s, fr) is not None:
+                o.absorb(self._with_object(s, items, item, t, y, fr), nxt=True)
+                continue
             if f is None:
                 if item.optional_vars is not None:
                     sts = self.assign(item.optional_vars, ('ctx', t), y, fr, o, s)
@@ -1931,7 +2186,11 @@ class Interp:
         return self.eval(e.value, st, fr, o)
 
     def e_Lambda(self, e, st, fr, o):
-        return [(st, ('unk', 'lambda'))]
+        if not self.an.lambda_values:
+            return [(st, ('unk', 'lambda'))]
+        t = T.mk(('lam', e.lineno, e.col_offset, fr.fid))
+        self.__dict__.setdefault('_lams', {})[t] = (e, fr)
+        return [(st, t)]
 
     def e_NamedExpr(self, e, st, fr, o):
         res = []
@@ -1984,7 +2243,9 @@ class Interp:
         while work:
             x, ts, i = work.pop()
             if i == len(e.values):
-                t = ts[0] if len(ts) == 1 else ('boolop', opn, tuple(ts))
+                # (an operand too deep to be kept is unknown on its own: the others stay readable)
+                t = ts[0] if len(ts) == 1 else ('boolop', opn, tuple(
+                    (T.mk(('unk', 'operand')) if T.mk(ti)._d > T.MAX_DEPTH - 3 else ti) for ti in ts))
                 res.append((x, T.cap(t, 'boolop')))
                 continue
             for y, t in self.eval(e.values[i], x, fr, o):
@@ -2244,8 +2505,18 @@ class Interp:
                 f = self.prog.funcs.get(t[1])
                 if f is not None and fr.depth < self.an.max_inline and f.qualname not in fr.stack \
                         and self.an.want_inline_gen(self, f, fr):
-                    for y, _ in self.inline(f, None, (), (), None, x, fr, o, e, bindings=t[2]):
-                        res.append((y, ('unk', 'yieldfrom')))
+                    # what the delegate yields goes where the yields of this generator go (a for loop of the caller,
+                    # a "".join(...) that collects them)
+                    sinks = self.__dict__.setdefault('_ysinks', [])
+                    mine = next((sk for sk in reversed(sinks) if sk[0] is fr.func and sk[1] == fr.depth), None)
+                    if mine is not None:
+                        sinks.append((f, fr.depth + 1) + tuple(mine[2:]))
+                    try:
+                        for y, _ in self.inline(f, None, (), (), None, x, fr, o, e, bindings=t[2]):
+                            res.append((y, ('unk', 'yieldfrom')))
+                    finally:
+                        if mine is not None:
+                            sinks.pop()
                     continue
             y = self.an.on_yield(self, e, ('star', t), x, fr)
             if y is not None:
@@ -2273,6 +2544,21 @@ class Interp:
         return res
 
     def call(self, e, fterm, args, kws, st, fr, o):
+        if fterm[0] == 'lam':
+            # a lambda of the function being read (`lambda: tasks`), called while the frame that made it is alive
+            ent = self.__dict__.get('_lams', {}).get(fterm)
+            if ent is not None and not kws:
+                node, dfr = ent
+                a = node.args
+                names = [x.arg for x in a.posonlyargs + a.args]
+                if not a.vararg and not a.kwarg and not a.kwonlyargs and len(names) - len(a.defaults) <= len(args) <= len(names) \
+                        and any(k[0] == dfr.fid for k in st.vars):
+                    y = st
+                    for n, v in zip(names, args):
+                        y = y.with_var(dfr.fid, n, v)
+                    if len(args) == len(names):
+                        return self.eval(node.body, y, dfr, o)
+            return [(st, T.mk(('unk', 'lambda-call')))]
         if fterm[0] == 'ifexp':
             # f = a if c else b ; f(x)  -- call whichever the path condition selects
             res = []
@@ -2395,6 +2681,17 @@ class Interp:
                 if ok:
                     return [(y, obj)]
             return [(st, obj)]
+        if kind == 'ext' and callee == 'type' and len(args) == 1 and not kws and args[0][0] == 'exc':
+            return [(st, T.mk(('exctype', args[0][1])))]
+        if kind == 'ext' and callee == 'issubclass' and len(args) == 2 and not kws and args[0][0] == 'exctype':
+            names = [x[1] for x in (args[1][1] if args[1][0] == 'tuple' else [args[1]])
+                     if isinstance(x, tuple) and len(x) > 1 and isinstance(x[1], str)]
+            cs = [self._catch1(n, args[0][1]) for n in names]
+            if names and 'yes' in cs:
+                return [(st, T.TRUE)]
+            if names and all(c == 'no' for c in cs) and len(names) == len(args[1][1] if args[1][0] == 'tuple' else [1]):
+                return [(st, T.FALSE)]
+            return [(st, T.mk(('unk', 'issubclass')))]
         if kind == 'ext' and callee in ('str', 'format', 'repr') and len(args) == 1 and not kws and args[0][0] == 'new' \
                 and isinstance(args[0][1], str) and args[0][1] in self.prog.classes:
             g = self.prog.supplier(self.prog.classes[args[0][1]], '__repr__' if callee == 'repr' else '__str__')
@@ -2550,7 +2847,8 @@ class Interp:
         params = list(f.params)
         b = {}
         args = list(args)
-        if f.cls is not None and not f.is_static and params:
+        if f.cls is not None and not f.is_static and params and f.parent is None:
+            # (a function nested in a method takes no receiver)
             if recv == 'explicit':
                 if args:
                     b[params[0]] = args.pop(0)
@@ -2712,9 +3010,10 @@ def _short(node, n=60):
     return s if len(s) <= n else s[:n - 1] + "…"
 
 
-def _has_effects(e):
+def _has_effects(e, allow_calls=False):
     for n in ast.walk(e):
-        if isinstance(n, (ast.Call, ast.Await, ast.Yield, ast.YieldFrom, ast.NamedExpr)):
+        if isinstance(n, (ast.Await, ast.Yield, ast.YieldFrom, ast.NamedExpr)) or \
+                (isinstance(n, ast.Call) and not allow_calls):
             return True
     return False
 
@@ -2770,6 +3069,32 @@ def _format_parts(tpl, args):
     if i != len(args):
         return None
     return tuple(out)
+
+
+def _replay_items(it):
+    """[(element, conditions)] when `it` is a list built by appending single elements of one set-like collection
+    under conditions, in a loop that ran to its end; else None"""
+    if it[0] != 'union' or not it[1] or len(it[1]) > 4:
+        return None
+    out = []
+    for item in it[1]:
+        conds = frozenset()
+        if item[0] == 'when':
+            if item[2]:
+                return None
+            conds, item = item[1], item[3]
+        if item[0] != 'single' or item[1][0] != 'elem':
+            return None
+        src = item[1][1]
+        while src[0] == 'call' and src[1] in ('list', 'tuple', 'sorted') and len(src[2]) == 1:
+            src = src[2][0]
+        setlike = src[0] in ('union', 'wdone', 'wpend') or (src[0] == 'mcall' and src[2] in ('union', 'difference', 'intersection', 'copy')) \
+            or (src[0] == 'call' and src[1] in ('set', 'frozenset')) or (src[0] == 'comp' and src[1] == 'set') \
+            or (src[0] == 'attr' and src[2] in ('jobs', 'required', '_s_successors'))
+        if not setlike:
+            return None
+        out.append((item[1], conds))
+    return out
 
 
 def _is_dataclass(cls):
